@@ -36,7 +36,9 @@ FINDING_D19 = "C17-quick-check-same-size-mtime"
 FINDING_MTIME = "C17-mtime-float-floor-early-epoch"
 
 NAMES = ["a", "b.txt", "with space", "ünï-cödé", "日本語", "x" * 40, "-dash", "#hash", ".hidden", "tab\tname",
-         "new\nline", "f1", "sub", "dir.d", "é", "A", "a b  c", "~tilde", "per%cent", "q'uote\"", "z"]
+         "new\nline", "f1", "sub", "dir.d", "é", "A", "a b  c", "~tilde", "per%cent", "q'uote\"", "z",
+         # names that merely START like the parent directory (a link into them does not leave the tree)
+         "..data", "...", "..2024_05_01"]
 FILE_MODES = [0o400, 0o440, 0o444, 0o500, 0o555, 0o600, 0o640, 0o644, 0o664, 0o666, 0o700, 0o744, 0o755, 0o777]
 DIR_MODES = [0o500, 0o555, 0o700, 0o711, 0o750, 0o755, 0o775, 0o777]
 SEND_TIMEOUT = 30.0
@@ -502,7 +504,8 @@ def compare_model(ctx, res, model_items):
 LINK_TARGETS = ["f1", "a", "../x", "sub/f1", "nonexist", "./a//b", "..", ".", "sub/", "with space",
                 "{S}/a", "{S}/f1", "{S}/sub/../a", "{S}//sub//f1/", "{S}/nonexist", "{S}/sub", "{S}/ünï-cödé",
                 "{S}", "{S}/.", "{S}/sub/..", "{S}/..", "{S}/../src/a", "{S}x", "{S}x/a", "{X}/thing", "{X}/nothing",
-                "/etc/passwd", "/nonexistent/zzz", "/", "//etc", "{S}/a/../../out/thing", "{T}/a"]
+                "/etc/passwd", "/nonexistent/zzz", "/", "//etc", "{S}/a/../../out/thing", "{T}/a",
+                "{S}/..data", "{S}/..data/a", "{S}/...", "{S}/..2024_05_01/f1", "..data", ".../a"]
 
 
 class Gen:
@@ -601,7 +604,13 @@ class Gen:
                 size = len(content_bytes(sub["c"]))
                 # same size, other bytes: the mtime moves by whole seconds (equal size + equal st_mtime float + other
                 # content is exactly D19's shape, kept for the dedicated demonstration)
-                ents[name] = dict(sub, c=self.content(size), ns=sub["ns"] + r.choice([1, 2, 3600]) * 1_000_000_000)
+                # … or by a fraction of a second within the same whole second (the quick check compares the floats, not seconds)
+                frac = sub["ns"] % 1_000_000_000
+                subsec = [d for d in (250_000_000, 500_000_000) if frac + d < 1_000_000_000]
+                if subsec and sub["ns"] >= 1_000_000_000 and r.random() < 0.5:
+                    ents[name] = dict(sub, c=self.content(size), ns=sub["ns"] + r.choice(subsec))
+                else:
+                    ents[name] = dict(sub, c=self.content(size), ns=sub["ns"] + r.choice([1, 2, 3600]) * 1_000_000_000)
             elif how == "mtime":
                 ents[name] = dict(sub, ns=self.ns())
             elif how == "mode":
